@@ -377,6 +377,27 @@ def filters_config(h, mesh, spec, free=None):
                     if got != want:
                         bad.append('skip=%s.%s(%s)' % (g, flt[0], flt[1]))
             h.concrete('%s: skip= followed by a filter' % qname, not bad, '; '.join(bad[:3]))
+            # the by-name dictionaries of a view (view.nodal / .facet / .edge / .interior) partition its DOFs by kind and name
+            bad = []
+            for chain in [()] + [(f,) for f in filters[:6]]:
+                view = q()
+                for op, g in chain:
+                    view = getattr(view, op)(list(g) if len(g) > 1 else g[0])
+                allD = set(np.asarray(view.flatten()).tolist())
+                got = {}
+                try:
+                    for kind in ('nodal', 'facet', 'edge', 'interior'):
+                        for nm, arr in getattr(view, kind).items():
+                            got.setdefault(nm, set()).update(int(x) for x in np.asarray(arr).ravel())
+                except Exception as ex_:   # noqa
+                    bad.append('%s: %s raised %s' % (chain, kind, type(ex_).__name__))
+                    continue
+                want = {}
+                for d in allD:
+                    want.setdefault(gname[d], set()).add(d)
+                if {k: v for k, v in got.items() if v} != want:
+                    bad.append('%s: by-name %s vs %s' % (chain, {k: sorted(v)[:4] for k, v in got.items()}, {k: sorted(v)[:4] for k, v in want.items()}))
+            h.concrete('%s: by-name dictionaries of the view == its DOFs grouped by name' % qname, not bad, '; '.join(bad[:2]))
 
 
 def all_subsets(items, maxn=None):
